@@ -111,7 +111,7 @@ fn all_strings(alphabet: &[&str], maxlen: usize, f: &mut dyn FnMut(&str)) {
 }
 
 pub fn main(ctx: &Ctx) -> i32 {
-    ctx.set_rule("exhaustive: all interface names over {a,B,1,-,.} up to length 7; all type expressions of up to 5 (quick) / 6 (thorough) tokens over {?, [], [string], int, T, (a:int), (a,b), ()}; all 9 ordered member-kind pairs x {same, different name} x 3 positions; generated: grammar-directed valid definitions rendered with 3 trivia levels, and single-token delete/insert/swap/substitute/duplicate mutants of them; each text is bracketed by a strict and a liberal hand-written recogniser; distinct = (text, class); non-trivial = accepted text, duplicate text, or a rejected text one edit away from an accepted one");
+    ctx.set_rule("exhaustive: all interface names over {a,B,1,-,.} up to length 7; all field names / enum elements over {a,B,1,_} up to length 6 and member / type names over {A,b,1,_} up to length 5, in four positions each; all type expressions of up to 5 (quick) / 6 (thorough) tokens over {?, [], [string], int, T, (a:int), (a,b), ()}; all 9 ordered member-kind pairs x {same, different name} x 3 positions; generated: grammar-directed valid definitions rendered with 3 trivia levels, and single-token delete/insert/swap/substitute/duplicate mutants of them; each text is bracketed by a strict and a liberal hand-written recogniser; distinct = (text, class); non-trivial = accepted text, duplicate text, or a rejected text one edit away from an accepted one");
     ctx.assume("the grammar is reproduced from the published varlink rules from memory; interface names follow [A-Za-z]([-]*[A-Za-z0-9])*(\\.[A-Za-z0-9]([-]*[A-Za-z0-9])*)+");
     ctx.assume("pinned (regression only): the whitespace code points and the positions where the implementation's layout allows trivia; texts that only a liberal trivia policy accepts (several members on one line, blank before a comma, blanks before a trailing comment, unterminated final comment, zero members) are skipped_unspecified");
     // 1. interface names, exhaustive
@@ -129,6 +129,42 @@ pub fn main(ctx: &Ctx) -> i32 {
             }
         });
         ctx.count("interface_names_enumerated", names.len() as u64);
+    }
+    // 1b. field names / enum elements / member names, exhaustive over a small alphabet
+    {
+        let mut fields: Vec<String> = Vec::new();
+        all_strings(&["a", "B", "1", "_"], 6, &mut |s| fields.push(s.to_string()));
+        let mut names: Vec<String> = Vec::new();
+        all_strings(&["A", "b", "1", "_"], 5, &mut |s| names.push(s.to_string()));
+        let nw = workers();
+        par(nw, |w| {
+            for (i, n) in fields.iter().enumerate() {
+                if i % nw != w || n.is_empty() {
+                    continue;
+                }
+                let text = match i % 4 {
+                    0 => format!("interface a.b\ntype T ({}: int)", n),
+                    1 => format!("interface a.b\ntype T ({}, zz)", n),
+                    2 => format!("interface a.b\nmethod F({}: int) -> ()", n),
+                    _ => format!("interface a.b\nerror E (x: int, {}: (y: string))", n),
+                };
+                judge(ctx, &text, "field-name-exhaustive", true);
+            }
+            for (i, n) in names.iter().enumerate() {
+                if i % nw != w || n.is_empty() {
+                    continue;
+                }
+                let text = match i % 4 {
+                    0 => format!("interface a.b\ntype {} (a: int)", n),
+                    1 => format!("interface a.b\nmethod {}() -> ()", n),
+                    2 => format!("interface a.b\nerror {} ()", n),
+                    _ => format!("interface a.b\ntype T (a: {})\ntype Aa (b: int)", n),
+                };
+                judge(ctx, &text, "member-name-exhaustive", true);
+            }
+        });
+        ctx.count("field_names_enumerated", fields.len() as u64);
+        ctx.count("member_names_enumerated", names.len() as u64);
     }
     // 2. type expressions, exhaustive
     {
